@@ -156,6 +156,13 @@ func (x *Exec) satQuiet(t *Term) bool {
 
 // doAssert implements vAssert(c, label).
 func (x *Exec) doAssert(c *Term, label string) {
+	if x.pos < x.prefixLen && x.concrete == nil && !c.IsConc() {
+		// Still replaying the decision prefix inherited from the path that forked this one: that path executed this
+		// very assertion under the same path condition and discharged it (had it failed, it would have stopped here
+		// and this alternative would not exist). Keep the fact, do not ask again, do not count it twice.
+		x.sol.Assert(c)
+		return
+	}
 	x.pr.asserts++
 	if c.IsConc() && c.C.(bool) {
 		x.pr.proved++
